@@ -45,19 +45,19 @@ def r1_build_order(ctx):
 
 
 def r2_observer_splice(ctx):
-    ctx.rule('C06.R2', 'P7/P2: in build_call_graph, inside the loop over error_observer_ids (forward, no rev), the HappensBefore edge goes from the '
-             'previous observer to the node added in this iteration; after the loop the last observer gets a HappensBefore edge to the error '
-             'handler\'s response node; each observer gets a SharedBorrow edge from the pavex::Error node; enforce_invariants is given '
-             'error_observer_ids.len().')
-    bodies = ctx.fb.bodies_of_item('pavexc', CGB)
-    main = [b for b in bodies if b.nid == b.nroot]
-    b = ctx.need('C06.R2', 'build_call_graph', main[0] if main else None)
-    if b is None:
-        return
-    defs = Defs(b)
+    ctx.rule('C06.R2', 'P7/P2: where the call graph builder splices the error observers in (build_call_graph or a private helper of it), inside the loop '
+             'over the observer ids (forward, no rev) the HappensBefore edge goes from the PREVIOUS observer node — the loop-carried value that is '
+             'set from the node added in the last iteration, or the tail of the vector those nodes are pushed to — to the node added in THIS '
+             'iteration; after the loop the last observer gets a HappensBefore edge to the error handler\'s response node; each observer node '
+             'gets a SharedBorrow edge from the pavex::Error node; enforce_invariants is given error_observer_ids.len().')
+    from .compiler_common import family_bodies
     META = A + 'call_graph::core_graph::CallGraphEdgeMetadata'
+    main = ctx.fb.body('pavexc', CGB)
+    if not ctx.need('C06.R2', 'build_call_graph', main):
+        return
+    fam = [x for x in family_bodies(ctx, 'pavexc', [CGB]) if not x.is_promoted]
 
-    def meta_of(t):
+    def meta_of(b, defs, t):
         pl = op_place(t['args'][-1])
         if pl is None:
             return None
@@ -68,50 +68,149 @@ def r2_observer_splice(ctx):
                 return rv['var']
         return None
 
-    prev_locals = {v['pl']['l'] for v in b.raw['vars'] if v['n'] == 'previous_index' and 'pl' in v and not v['pl'].get('p')}
-    obs_locals = {v['pl']['l'] for v in b.raw['vars'] if v['n'] == 'error_observer_node_index' and 'pl' in v and not v['pl'].get('p')}
+    holders = []
+    for x in fam:
+        d = Defs(x)
+        hb = [(bb, t) for bb, t in x.calls() if (callee(t) or '').endswith('::update_edge') and meta_of(x, d, t) == 'HappensBefore']
+        if hb:
+            holders.append((x, d, hb))
+    if not ctx.need('C06.R2', 'HappensBefore edges in the call graph builder', holders):
+        return
+    b, defs, hb = max(holders, key=lambda h: len(h[2]))
+    # the loop over the observer ids: an Iterator::next over a slice of component ids whose loop contains a HappensBefore edge
+    loops = []
+    for nb, nt in b.calls():
+        if callee(nt) != 'core::iter::traits::iterator::Iterator::next' or not nt.get('aty') or 'slice::iter::Iter' not in nt['aty'][0] or 'Idx<' not in nt['aty'][0]:
+            continue
+        none_t = some_t = None
+        for sb in b.reachable(b.succ(nb)):
+            w = b.term(sb)
+            if w and w['k'] == 'switch' and 'enum' in w and strip_generics(w['enum']) == 'core::option::Option' and w['src']['l'] == nt['dest']['l']:
+                from ..tables import switch_edges
+                e = switch_edges(w)
+                none_t, some_t = e.get('None'), e.get('Some')
+                if none_t is None:
+                    none_t = [x for x in b.succ(sb) if x != some_t][0] if some_t is not None else None
+                if some_t is None:
+                    some_t = [x for x in b.succ(sb) if x != none_t][0] if none_t is not None else None
+                break
+        if none_t is None or some_t is None:
+            continue
+        inner = {x for x in b.reachable([some_t], avoid=[none_t]) if nb in b.reachable([x], avoid=[none_t])} | {some_t}
+        if any(bb in inner for bb, _ in hb):
+            loops.append((nb, inner, none_t))
+    if not ctx.need('C06.R2', 'loop over the observer ids around a HappensBefore edge', loops):
+        return
+    nb, inner, none_t = min(loops, key=lambda l: len(l[1]))
 
-    def role(op):
-        """immediate provenance through copies / moves / payload reads only"""
-        pl = op_place(op)
+    def root(op, depth=0):
+        """('call', bb) / ('var', local) / ('param', local) / ('other', None): immediate provenance through copies, references and payload reads"""
+        pl = op_place(op) if isinstance(op, dict) and ('cp' in op or 'mv' in op) else op
+        seen = set()
+        while pl is not None and pl['l'] not in seen and depth < 40:
+            depth += 1
+            seen.add(pl['l'])
+            l = pl['l']
+            if 1 <= l <= b.raw['argc']:
+                return ('param', l)
+            ds = defs.full.get(l, [])
+            if len(ds) > 1:
+                return ('var', l)
+            if not ds:
+                return ('other', None)
+            dbb, j, node = ds[0]
+            if node.get('k') == 'call':
+                c = (callee(node) or '').split('::')[-1]
+                if c in ('last', 'copied', 'cloned', 'unwrap', 'deref', 'as_ref', 'clone', 'expect', 'last_mut') and node['args']:
+                    q = op_place(node['args'][0])
+                    if c in ('last', 'last_mut') and q is not None:
+                        return ('tail', root_local(q))
+                    pl = q
+                    continue
+                return ('call', dbb)
+            rv = node.get('rv')
+            if rv and rv['k'] == 'use':
+                pl = op_place(rv['op'])
+            elif rv and rv['k'] in ('ref', 'cfd'):
+                pl = rv['pl']
+            elif rv and rv['k'] == 'agg' and rv.get('var') == 'Some' and rv['ops']:
+                pl = op_place(rv['ops'][0])
+            else:
+                return ('other', None)
+        return ('other', None)
+
+    def root_local(pl):
         seen = set()
         while pl is not None and pl['l'] not in seen:
             seen.add(pl['l'])
-            if pl['l'] in obs_locals:
-                return 'new'
-            if pl['l'] in prev_locals:
-                return 'previous'
-            nxt = None
-            for (dbb, j, node) in defs.full.get(pl['l'], []):
-                rv = node.get('rv')
-                if rv and rv['k'] == 'use' and op_place(rv['op']) is not None:
-                    nxt = op_place(rv['op'])
-                elif rv and rv['k'] in ('ref', 'cfd'):
-                    nxt = rv['pl']
-            pl = nxt
+            ds = defs.full.get(pl['l'], [])
+            if len(ds) == 1 and ds[0][2].get('k') == 'call' and (callee(ds[0][2]) or '').split('::')[-1] in ('deref', 'deref_mut', 'as_slice', 'as_mut_slice', 'as_ref', 'as_mut', 'borrow', 'borrow_mut') and ds[0][2]['args']:
+                pl = op_place(ds[0][2]['args'][0])
+                continue
+            if len(ds) != 1 or 'rv' not in ds[0][2]:
+                return pl['l']
+            rv = ds[0][2]['rv']
+            if rv['k'] == 'use':
+                pl = op_place(rv['op'])
+            elif rv['k'] in ('ref', 'cfd'):
+                pl = rv['pl']
+            else:
+                return pl['l']
+        return pl['l'] if pl else None
+
+    def is_new(r):
+        return r[0] == 'call' and r[1] in inner
+
+    # loop-carried "previous": a local with several definitions, one of them inside the loop and derived from the new node; or the tail of a
+    # vector that is pushed the new node inside the loop
+    def carried(l):
+        ins = [(dbb, node) for dbb, j, node in defs.full.get(l, []) if dbb in inner]
+        outs = [(dbb, node) for dbb, j, node in defs.full.get(l, []) if dbb not in inner]
+        if not ins or not outs:
+            return False
+        for dbb, node in ins:
+            rv = node.get('rv')
+            src = None
+            if rv and rv['k'] == 'agg' and rv['ops']:
+                src = rv['ops'][0]
+            elif rv and rv['k'] == 'use':
+                src = rv['op']
+            if src is None or not is_new(root(src)):
+                return False
+        return True
+
+    def pushed_new(vec_local):
+        for pb, pt in b.calls():
+            if pb in inner and (callee(pt) or '').split('::')[-1] in ('push', 'push_back') and pt['args']:
+                q = op_place(pt['args'][0])
+                if q is not None and root_local(q) == vec_local and is_new(root(pt['args'][-1])):
+                    return True
+        return False
+
+    def role(op):
+        r = root(op)
+        if is_new(r):
+            return 'new'
+        if r[0] == 'var' and carried(r[1]):
+            return 'previous'
+        if r[0] == 'tail' and r[1] is not None and pushed_new(r[1]):
+            return 'previous'
         return 'other'
 
-    edges = []
-    for bb, t in b.calls():
-        if (callee(t) or '').endswith('::update_edge') and meta_of(t) == 'HappensBefore':
-            in_loop_over_obs = False
-            # the loop whose iterator derives from error_observer_ids (argument)
-            edges.append((bb, role(t['args'][1]), role(t['args'][2])))
-    ctx.need('C06.R2', 'bindings previous_index / error_observer_node_index', prev_locals and obs_locals)
-    got = sorted((a, c) for _, a, c in edges)
-    want = [('previous', 'new'), ('previous', 'other')]
+    edges = [(bb, role(t['args'][1]), role(t['args'][2]), bb in inner) for bb, t in hb]
+    got = sorted((a, c, 'in' if i else 'after') for _, a, c, i in edges)
+    want = [('previous', 'new', 'in'), ('previous', 'other', 'after')]
     ctx.ob('C06.R2', 'observers-chained-in-registration-order', got == want, b.loc(edges[0][0]) if edges else b.loc(),
            'HappensBefore edges: %s (documented: previous -> new inside the loop, previous -> response node after it)' % got)
-    borrows = [(role(t['args'][1]), role(t['args'][2])) for bb, t in b.calls() if (callee(t) or '').endswith('::update_edge') and meta_of(t) == 'SharedBorrow'
-               and role(t['args'][2]) == 'new']
+    borrows = [(role(t['args'][1]), role(t['args'][2])) for bb, t in b.calls() if (callee(t) or '').endswith('::update_edge') and meta_of(b, defs, t) == 'SharedBorrow'
+               and bb in inner and role(t['args'][2]) == 'new']
     ctx.ob('C06.R2', 'observers-borrow-the-error', bool(borrows) and all(a == 'other' for a, _ in borrows), b.loc(), 'each new observer node gets a SharedBorrow edge from the error node: %s' % borrows)
     # forward iteration
-    its = [(bb, t) for bb, t in b.calls() if callee(t) == 'core::iter::traits::collect::IntoIterator::into_iter' and 'ComponentId' not in t['aty'][0] and t['aty'][0].startswith('&[la_arena::Idx')]
-    revs = [bb for bb, t in b.calls() if callee(t) == 'core::iter::traits::iterator::Iterator::rev' and 'slice::iter::Iter' in t['aty'][0] and 'Idx<' in t['aty'][0]]
+    revs = [bb for x in fam for bb, t in x.calls() if callee(t) == 'core::iter::traits::iterator::Iterator::rev' and 'slice::iter::Iter' in t['aty'][0] and 'Idx<' in t['aty'][0]]
     ctx.ob('C06.R2', 'forward-iteration', not revs, b.loc(), 'no reversed iteration over the observer ids: %s' % (not revs))
-    inv = [(bb, t) for bb, t in b.calls() if (callee(t) or '').endswith('core_graph::enforce_invariants')]
-    oks = [bb for bb, j, st in b.all_assigns() if st['lhs'] == {'l': 0} and st['rv']['k'] == 'agg' and st['rv'].get('var') == 'Ok']
-    ctx.ob('C06.R2', 'invariants-before-ok', bool(inv) and bool(oks) and all(b.dominates(inv[0][0], o) for o in oks), b.loc(inv[0][0]) if inv else b.loc(),
+    inv = [(bb, t) for bb, t in main.calls() if (callee(t) or '').endswith('core_graph::enforce_invariants')]
+    oks = [bb for bb, j, st in main.all_assigns() if st['lhs'] == {'l': 0} and st['rv']['k'] == 'agg' and st['rv'].get('var') == 'Ok']
+    ctx.ob('C06.R2', 'invariants-before-ok', bool(inv) and bool(oks) and all(main.dominates(inv[0][0], o) for o in oks), main.loc(inv[0][0]) if inv else main.loc(),
            'enforce_invariants(..) dominates Ok(call graph)')
 
 
